@@ -1690,7 +1690,10 @@ def arming_key_is_cancelling_key(ctx, rule: str) -> None:
                 for side in [y.left] + list(y.comparators):
                     if cp in norm(side):
                         cancel_keys.add(norm(side).replace(cp, "<state>"))
+    from sa.util import expand_names
     for x, k in keys:
+        if k is not None:
+            k = expand_names(sch, k)         # owner_id = state.id; ... owner_id=owner_id
         kt = norm(k).replace(st_param, "<state>") if k is not None else "?"
         ok = k is not None and kt == "<state>.id" and kt in cancel_keys
         c.ob(rule, ok, sch, f"armed-under-cancelled-key:{x.func.attr}", "tasks are armed under the key the exit routine cancels by (the state id)" if ok else
